@@ -95,7 +95,7 @@ def has_unsigned(f):
 
 
 def has_zero_dim(f):
-    return any(len(d) == 0 for d in f.dimensions.values())
+    return any(len(d) == 0 for _, d in f.dimensions.items())
 
 
 def int_pow_domain(f):
@@ -142,7 +142,10 @@ def op_slice(rng, f, ioapi_window=False):
                                                  'PERIM')]
     if not dims:
         return None
-    zipped = OPTIONS['zipped'] and rng.random() < 0.3
+    # (a second pointwise selection would need another name for its new
+    # dimension: POINTS is taken)
+    zipped = OPTIONS['zipped'] and rng.random() < 0.3 and \
+        'POINTS' not in f.dimensions
     if zipped:
         n = int(rng.integers(min(2, len(dims)), min(4, len(dims)) + 1))
     else:
@@ -260,7 +263,11 @@ def op_renamevar(rng, f):
         return ('renameVariables(%s=%s,copyall=False)' % (old, new),
                 (lambda: f.renameVariables(copyall=False, **{old: new})), [],
                 True, {'old': old, 'new': new, 'copyall': False})
-    others = [k for k in keys if k != old]
+    # (a variable of the same dimensions that no metadata is read from)
+    others = [k for k in keys if k != old and
+              k not in ('time', 'time_bounds', 'TFLAG', 'ETFLAG') and
+              tuple(f.variables[k].dimensions) ==
+              tuple(f.variables[old].dimensions)]
     if not others:
         return None
     # onto the name of another variable, which it replaces
@@ -659,6 +666,10 @@ def run_program(f, prog_seed, nops, allowed=None, on_step=None):
         if on_step:
             on_step('after', st, pre)
         if st.exc is not None or st.result is None or st.meta.get('stop'):
+            break
+        if not st.in_domain:
+            # the call was outside the documented domain and returned
+            # something: nothing is demanded of what follows
             break
         cur = st.result
     return trace
